@@ -52,6 +52,10 @@ def main(argv):
     demo_rel = None
     if os.path.exists(demo):
       shutil.copy(demo, os.path.join(scratch, '_out', 'X', 'demo.py'))
+      for extra in os.listdir(seed_dir):     # helper modules a demo imports from its _out directory
+        if extra.endswith('.py') and extra != 'demo.py':
+          shutil.copy(os.path.join(seed_dir, extra), os.path.join(scratch, '_out', extra))
+          shutil.copy(os.path.join(seed_dir, extra), os.path.join(scratch, '_out', 'X', extra))
       demo_rel = '_out/X/demo.py'
       rc, out = sh(['/venv/bin/python', demo_rel], cwd=scratch, timeout=300)
       meta['demo_unpatched_rc'] = rc
